@@ -377,3 +377,35 @@ def ns_reuse_cases(seed, lo, hi, extra):
             st.failures.append({"prop": "C08", "sig": f"{sig}/formatter-reused-prefix-rebound", "detail": det, "output": out[:600], **desc})
         st.nontriv((p1, p2, repr(cfg)))
     return st
+
+
+# ---------------------------------------------------------------------------
+# minimised past failures of the XML formatter (corpus/xmlfmt.json): run first, on every run
+
+
+def corpus_cases(seed, lo, hi, extra):
+    import json as _json
+    import os
+
+    from xmldiff import main, formatting
+    import real
+
+    st = core.Stats()
+    path = os.path.join(os.path.dirname(os.path.dirname(os.path.dirname(os.path.abspath(__file__)))), "corpus", "xmlfmt.json")
+    entries = _json.load(open(path, encoding="utf-8"))
+    for e in entries[lo:hi]:
+        cfg = dict(e["formatter"])
+        for k in ("text_tags", "formatting_tags"):
+            if k in cfg:
+                cfg[k] = tuple(cfg[k])
+        st.evaluations += 1
+        st.units["xml-corpus"] = st.units.get("xml-corpus", 0) + 1
+        desc = {"left": e["left"], "right": e["right"], "formatter": repr(cfg), "corpus": e.get("why")}
+        try:
+            out = main.diff_texts(e["left"], e["right"], formatter=formatting.XMLFormatter(**cfg))
+        except Exception as ex:  # noqa
+            st.failures.append({"prop": "C08", "sig": f"C08/raises/{real.exc_sig(ex)}/corpus", **desc})
+            continue
+        for sig, det in xmlfmt.check_c08(out):
+            st.failures.append({"prop": "C08", "sig": f"{sig}/corpus", "detail": det, "output": out[:600], **desc})
+    return st
